@@ -276,7 +276,7 @@ func (g *gen) settings(from string) {
 			}
 			g.tabDirty[from] = true
 			id = 1
-			v = []uint32{0, 40, 100, 4096, 8192, 65536}[g.r.Intn(6)]
+			v = []uint32{0, 40, 100, 4096, 8192, 65536, 65537, 1 << 20, 1 << 24}[g.r.Intn(9)]
 		case 8:
 			id, v = 3, uint32(1+g.r.Intn(100))
 		default:
@@ -461,7 +461,7 @@ func Generate(r *rng.R, idx int) ([]Op, bool) {
 				g.maxf[x] = v
 			}
 			if r.Chance(1, 4) {
-				o.Settings = append(o.Settings, [2]uint32{1, []uint32{0, 100, 4096, 16384}[r.Intn(4)]})
+				o.Settings = append(o.Settings, [2]uint32{1, []uint32{0, 100, 4096, 16384, 1 << 20}[r.Intn(5)]})
 				g.tabDirty[x] = true
 			}
 			g.do(o)
